@@ -728,6 +728,128 @@ def section_initial_state(ctx, r, corr):
             ctx.fail('property', 'HigherOrderComposite.sample_poly', ic, what, detail=dict(call=call, problem=src))
 
 
+def wire_bqm(prob):
+    return (','.join(f'{lab(v)}={rat(b)}' for v, b in prob.lin.items()) + ' ; ' +
+            ','.join(f'{lab(u)}&{lab(v)}={rat(b)}' for (u, v), b in prob.quad.items()) + f' ; {rat(prob.off)}')
+
+
+def rows_text(ss):
+    """record rows in record order, values by label (sorted), with energy — the model's `showRow` form"""
+    labels = list(ss.variables)
+    return '|'.join(','.join(sorted(f'{lab(v)}={rat(fr(x))}' for v, x in zip(labels, row))) + '@' + rat(fr(e))
+                    for row, e in zip(ss.record.sample, ss.record.energy))
+
+
+def section_post(ctx, r, corr):
+    """result assembly / row post-processing against the model: as_samples column order, parse_initial_states
+    (vartype conversion, none / tile / random, num_reads), SA energies, aggregate + truncate, structure check"""
+    for pi in range(ctx.scale(500, 8000)):
+        prob = BqmProblem(r)
+        while len(prob.labels) < 2:
+            prob = BqmProblem(r)
+        labels = list(prob.labels)
+        n = len(labels)
+        src = prob.src()
+        bqm = prob.bqm()
+        # -- as_samples: two dicts in different key orders -> the second row by the first row's labels
+        o1, o2 = labels[:], labels[:]
+        r.shuffle(o1); r.shuffle(o2)
+        d1 = {v: r.choice(prob.domain(v)) for v in o1}
+        d2 = {v: r.choice(prob.domain(v)) for v in o2}
+        arr, lbls = dimod.as_samples([d1, d2])
+        corr.add('reindex ; ' + ','.join(map(lab, lbls)) + ' ; ' + ','.join(map(lab, o2)) + ' ; ' + '.'.join(str(d2[v]) for v in o2),
+                 '.'.join(str(int(x)) for x in arr[1]), 'as_samples', f'{[d1, d2]!r}')
+        ctx.case(('reindex', pi, tuple(o1), tuple(o2)), nontrivial=o1 != o2); ctx.tick('direct:as_samples reindex')
+        if {v: int(x) for v, x in zip(lbls, arr[1])} != d2:
+            ctx.fail('property', 'as_samples', 'list of dicts with differing key order', f'second row read by label is {dict(zip(lbls, arr[1]))}, given {d2}',
+                     repro=PRE + f'import dimod\narr, labels = dimod.as_samples({[d1, d2]!r})\nassert dict(zip(labels, map(int, arr[1]))) == {d2!r}\n')
+        # -- IdentitySampler: generators and num_reads, states possibly of the other vartype
+        m = r.randint(1, 4)
+        other = r.random() < .3
+        dom = ((0, 1) if prob.spin else (-1, 1)) if other else prob.domain(labels[0])
+        order = labels[:]; r.shuffle(order)
+        states = [[r.choice(dom) for _ in order] for _ in range(m)]
+        flat = [x for row in states for x in row]
+        ssp = '-' if all(x == 1 for x in flat) else ('B' if all(x in (0, 1) for x in flat) else 'S')
+        gen = r.choice(['none', 'tile', 'tile', 'random'])
+        nr = r.choice([None, r.randint(1, 7)])
+        seed = r.randrange(1000)
+        kw = dict(initial_states=(np.array(states, dtype=np.int8), list(order)), initial_states_generator=gen, seed=seed)
+        if nr is not None:
+            kw['num_reads'] = nr
+        call = f'dimod.IdentitySampler().sample(BQM, initial_states=(np.array({states!r}, dtype=np.int8), {order!r}), initial_states_generator={gen!r}, seed={seed}' + (f', num_reads={nr})' if nr is not None else ')')
+        try:
+            ss = dimod.IdentitySampler().sample(bqm, **kw)
+            got = 'ok ' + rows_text(ss)
+        except ValueError:
+            ss, got = None, 'err'
+        fresh = '-'
+        if ss is not None and gen == 'random':
+            # the PRNG's rows are an input of the model: the rows beyond the given ones, in the given label order
+            cols = [list(ss.variables).index(v) for v in order]
+            fresh = '|'.join('.'.join(str(int(row[c])) for c in cols) for row in ss.record.sample[m:]) or '-'
+        corr.add(f"pis {int(prob.spin)} {ssp} {gen} {'-' if nr is None else nr} ; " + ','.join(map(lab, order)) + ' ; ' +
+                 '|'.join('.'.join(map(str, row)) for row in states) + f' ; {fresh} ; ' + wire_bqm(prob), got, 'Initialized.parse_initial_states', src + call)
+        ctx.case(('pis', pi, gen, nr, m, ssp), nontrivial=True); ctx.tick(f'direct:parse_initial_states:{gen}' + (':raises' if ss is None else ''))
+        if ss is not None:
+            want_n = nr if nr is not None else m
+            if len(ss) != want_n:
+                ctx.fail('property', 'IdentitySampler.sample', f'num_reads ({gen})', f'{len(ss)} rows for num_reads={want_n}', repro=PRE + src + f'assert len({call}) == {want_n}\n')
+            validate(ctx, ss, prob, 'IdentitySampler.sample', f'{gen} generator', src, call)
+        # -- SimulatedAnnealingSampler: energies of the rows it ends in
+        pyrandom.seed(seed)
+        sa = dimod.SimulatedAnnealingSampler().sample(bqm, num_reads=r.randint(1, 3), num_sweeps=r.randint(2, 5))
+        lbl = list(sa.variables)
+        spins = '|'.join(','.join(f'{lab(v)}={int(x) if prob.spin else 2 * int(x) - 1}' for v, x in zip(lbl, row)) for row in sa.record.sample)
+        corr.add(f'sa {int(prob.spin)} ; ' + wire_bqm(prob) + ' ; ' + spins, rows_text(sa), 'SimulatedAnnealingSampler.sample', src)
+        ctx.case(('sa', pi), nontrivial=True); ctx.tick('direct:SA result assembly')
+        # -- TruncateComposite over a child with repeated rows: aggregate + truncate
+        reps = [r.choice(states) for _ in range(r.randint(2, 7))] if not other else None
+        if reps is not None:
+            tn, by, agg = r.randint(1, 6), r.random() < .5, r.random() < .5
+            kwc = dict(initial_states=(np.array(reps, dtype=np.int8), list(order)))
+            child = dimod.IdentitySampler().sample(bqm, **kwc)
+            out = dimod.TruncateComposite(dimod.IdentitySampler(), tn, sorted_by='energy' if by else None, aggregate=agg).sample(bqm, **kwc)
+            rec = lambda s_: [('.'.join(str(int(x)) for x in row), rat(fr(e)), int(o)) for row, e, o in zip(s_.record.sample, s_.record.energy, s_.record.num_occurrences)]  # noqa: E731
+            line = f'trunc {tn} {int(by)} {int(agg)} ; ' + '|'.join('@'.join(map(str, t)) for t in rec(child))
+            if by:      # argsort may order equal energies differently: compare the energy sequence here, rows by membership below
+                corr.add(line + ' ; energies', '|'.join(t[1] for t in rec(out)), 'TruncateComposite.sample', src)
+            else:
+                corr.add(line, '|'.join('@'.join(map(str, t)) for t in rec(out)), 'TruncateComposite.sample', src)
+            ctx.case(('trunc', pi, tn, by, agg, len(reps)), nontrivial=True); ctx.tick(f'direct:truncate by={by} agg={agg}')
+            # predicate: rows are child rows; aggregated occurrences add up; count; lowest energies
+            cvals = {}
+            for v, e, o in rec(child):
+                cvals.setdefault(v, [e, 0]); cvals[v][1] += o
+            okp = len(out) == min(tn, len(cvals) if agg else len(child))
+            for v, e, o in rec(out):
+                okp = okp and v in cvals and cvals[v][0] == e and (o == cvals[v][1] if agg else True)
+            if by:
+                pool = sorted((F(e) for e, _ in cvals.values())) if agg else sorted(F(t[1]) for t in rec(child))
+                okp = okp and [F(t[1]) for t in rec(out)] == pool[:len(out)]
+            if not okp:
+                ctx.fail('property', 'TruncateComposite.sample', f'sorted_by={"energy" if by else None} aggregate={agg}',
+                         f'child rows {rec(child)} -> {rec(out)} for n={tn}', repro=PRE + src + f'# n={tn}\nassert False\n')
+        # -- StructureComposite: accept exactly the bqms inside the structure
+        nodes = [v for v in labels if r.random() < .85] + ['extra']
+        edges = [(u, v) if r.random() < .5 else (v, u) for (u, v) in prob.quad if r.random() < .85]
+        try:
+            dimod.StructureComposite(dimod.ExactSolver(), nodes, edges).sample(bqm)
+            acc = '1'
+        except dimod.exceptions.BinaryQuadraticModelStructureError:
+            acc = '0'
+        except KeyError:
+            acc = '0'      # an interaction with a variable outside the node list (only reachable after the node check fails)
+        corr.add('struct ; ' + ','.join(map(lab, nodes)) + ' ; ' + ','.join(f'{lab(a)}&{lab(b)}' for a, b in edges) + ' ; ' +
+                 ','.join(f'{lab(v)}={rat(b)}' for v, b in prob.lin.items()) + ' ; ' + ','.join(f'{lab(u)}&{lab(v)}={rat(b)}' for (u, v), b in prob.quad.items()),
+                 acc, 'StructureComposite.sample', src + f'nodes={nodes!r} edges={edges!r}')
+        inside = all(v in nodes for v in labels) and all((u, v) in edges or (v, u) in edges for (u, v) in prob.quad)
+        ctx.case(('struct', pi, acc), nontrivial=True); ctx.tick('direct:structure ' + ('accepted' if acc == '1' else 'refused'))
+        if (acc == '1') != inside:
+            ctx.fail('property', 'StructureComposite.sample', 'structure check', f'bqm {"inside" if inside else "outside"} the structure was {"accepted" if acc == "1" else "refused"}',
+                     repro=PRE + src + f'dimod.StructureComposite(dimod.ExactSolver(), {nodes!r}, {edges!r}).sample(BQM)\n')
+
+
 # ------------------------------------------------------------------ section D: DQM and CQM exact solvers
 
 def section_dqm(ctx, r, corr):
@@ -912,6 +1034,7 @@ def run(ctx):
     section_bqm(ctx, r, corr)
     section_poly(ctx, r, corr)
     section_initial_state(ctx, r, corr)
+    section_post(ctx, r, corr)
     section_dqm(ctx, r, corr)
     section_cqm(ctx, r, corr)
     got = run_driver('enumdriver', corr.lines)
